@@ -4,7 +4,7 @@
 set -u
 HERE="$(cd "$(dirname "$0")" && pwd)"
 F="${1:?usage: replay.sh <replay file>}"
-export CARGO_NET_OFFLINE=true RUSTFLAGS="--cfg fuzzing" CARGO_TERM_COLOR=never
+export CARGO_NET_OFFLINE=true RUSTFLAGS="--cfg fuzzing" CARGO_TERM_COLOR=never VERIF_HOME="$HERE"
 "$HERE/sync_subject.sh" || exit 2
 b=$(python3 -c 'import json,sys; print(json.load(open(sys.argv[1])).get("build","full"))' "$F") || exit 2
 feat=""; [ "$b" = full ] && feat="--features full"
